@@ -2,6 +2,9 @@
 From Coq Require Export List NArith ZArith Bool Lia.
 From Coq Require Ascii String.
 Export ListNotations.
+(* string literals: write  bs "abc"%string  (String itself is never imported: it would shadow length/++) *)
+Export String.StringSyntax.
+Delimit Scope string_scope with string.
 
 Definition byte := N.
 Definition text := list byte.
